@@ -5,6 +5,8 @@ Import ListNotations.
 
 Lemma read_3_checked : forall a, let d := sys_n skel Reader 3 a in scheck d (n_inv Reader d) = true.
 Proof. intros []; vm_cast_no_check (eq_refl true). Qed.
+Lemma read_3_full_checked : forall a, let d := sys_n skel Reader 3 a in scheck d (fixed_n_inv d) = true.
+Proof. intros []; vm_cast_no_check (eq_refl true). Qed.
 Lemma write_3_checked : forall a, let d := sys_n skel Writer 3 a in scheck d (n_inv Writer d) = true.
 Proof. intros []; vm_cast_no_check (eq_refl true). Qed.
 Lemma accept_3_checked : forall a, let d := sys_n skel Accepter 3 a in scheck d (n_inv Accepter d) = true.
